@@ -374,14 +374,32 @@ def execute(stack, body, b, lim, script, variant, json_ok=True):
                 from falcon.util.reader import BufferedReader
                 src = bytesrc.SyncSource(body, list(chunks) if chunks else None)
                 h = make_handler(lim)
-                form = h.deserialize(BufferedReader(src.read, len(body), variant['cs']), ctype, len(body))
-                rec.run_sync(form)
+                try:
+                    form = h.deserialize(BufferedReader(src.read, len(body), variant['cs']), ctype, len(body))
+                except bytesrc.Hang:
+                    raise
+                except Exception as ex:     # the handler refuses the form as a whole: an outcome, not a harness fault
+                    form = None
+                    e = _ev('next')
+                    rec._classify(e, ex)
+                    rec.events.append(e)
+                if form is not None:
+                    rec.run_sync(form)
             elif stack == 'h-async':
                 from falcon.asgi.reader import BufferedReader
                 src = bytesrc.AsyncSource(bytesrc.split(body, chunks or [len(body)]))
                 h = make_handler(lim)
-                form = bytesrc.drive(h.deserialize_async(BufferedReader(src, variant['cs']), ctype, len(body)))
-                bytesrc.drive(rec.run_async(form))
+                try:
+                    form = bytesrc.drive(h.deserialize_async(BufferedReader(src, variant['cs']), ctype, len(body)))
+                except bytesrc.Hang:
+                    raise
+                except Exception as ex:
+                    form = None
+                    e = _ev('next')
+                    rec._classify(e, ex)
+                    rec.events.append(e)
+                if form is not None:
+                    bytesrc.drive(rec.run_async(form))
             else:
                 w, a = _apps()
                 app = w if stack == 'wsgi' else a
